@@ -249,6 +249,9 @@ def c08(tier, seed):
                        "or the default output for negative entries (ScheduledPayload); statically, RexSchedule replays Graph.timings against the ring "
                        "sizes (BufferHoldsScheduledMessage). non-trivial = accepted run with some ring size > 1")
     rep.assumptions += ["window entries whose producer step lies before the starting step of the run are not judged (their ring slot holds the default output)"]
+    # the sizing rule itself: BufferSize.tla (TLC: the rule is safe on every schedule of the bounded instance) replayed on the real get_buffer_sizes()
+    from . import smallchecks
+    smallchecks.c08_buffer_rule(rep, quick)
     return rep.finish()
 
 
